@@ -33,6 +33,7 @@ type Config struct {
 	Verbose      bool
 	OneShot      bool // decide assertion queries in a fresh solver process (full tactic pipeline)
 	OneShotAll   bool // decide every query (branches too) in a fresh solver process
+	NoModelGuide bool // disable model-guided branching (see zmodel.go)
 	Thorough     bool
 	Concrete     map[string]string // when set: nondet values are taken from here (concrete run)
 }
@@ -109,6 +110,7 @@ type session struct {
 	seenUF map[string]bool
 	nCheck int
 	fresh  func(script string) solver.Result // when set, every query runs in a fresh process
+	live   bool                              // the last check answered sat and its model can still be read
 }
 
 func newSession(kind string, mode term.Mode, timeoutMs int) (*session, error) {
@@ -235,6 +237,7 @@ func (ss *session) assert(t *term.T) {
 // check asks whether the path condition together with t is satisfiable.
 func (ss *session) check(t *term.T) solver.Result {
 	ss.nCheck++
+	ss.live = false
 	if t == nil || t.IsTrue() {
 		if ss.fresh != nil {
 			ss.s.Queries++
@@ -258,7 +261,9 @@ func (ss *session) check(t *term.T) solver.Result {
 		return ss.fresh(ss.script.String() + "(assert " + ref + ")\n(check-sat)\n")
 	}
 	if t.Op == term.Var || strings.HasPrefix(ref, "t") {
-		return ss.s.Check(ref)
+		r := ss.s.Check(ref)
+		ss.live = r == solver.Sat
+		return r
 	}
 	ss.s.Push()
 	ss.s.Send("(assert " + ref + ")\n")
@@ -345,6 +350,9 @@ type pathState struct {
 	localCond *term.T
 	altSink   *[][]int
 	ctx       *term.Ctx
+
+	model *pathModel // last satisfying assignment of the path condition (nil: none kept)
+	interp *interp
 }
 
 func (i *interp) decide(cond *term.T, what string) bool {
@@ -369,6 +377,44 @@ func (i *interp) decide(cond *term.T, what string) bool {
 	}
 	p.h.noteDecision()
 	var r1, r2 solver.Result
+	qcheck := func(x *term.T) solver.Result {
+		if p.local && !p.localCond.IsTrue() {
+			return p.sess.check(c.AndB(p.localCond, x))
+		}
+		return p.sess.check(x)
+	}
+	if v, known := i.modelSays(cond); known {
+		// one side is witnessed by the kept assignment: query only the other
+		if v {
+			if qcheck(c.NotB(cond)) == solver.Unsat {
+				p.trace = append(p.trace, 1)
+				p.addPC(cond)
+				return true
+			}
+		} else {
+			r := qcheck(cond)
+			if r == solver.Unsat {
+				p.trace = append(p.trace, 0)
+				p.addPC(c.NotB(cond))
+				return false
+			}
+			// both sides feasible and this path takes the true side, which the
+			// kept assignment does not satisfy: take the fresh one if readable
+			p.model = nil
+			if r == solver.Sat && p.sess.live && !p.local {
+				i.fetchModel()
+			}
+		}
+		alt := append(append([]int(nil), p.trace...), 0)
+		if p.local {
+			*p.altSink = append(*p.altSink, alt)
+		} else {
+			p.h.push(alt)
+		}
+		p.trace = append(p.trace, 1)
+		p.addPC(cond)
+		return true
+	}
 	if p.local && !p.localCond.IsTrue() {
 		r1 = p.sess.check(c.AndB(p.localCond, cond))
 	} else {
@@ -378,6 +424,9 @@ func (i *interp) decide(cond *term.T, what string) bool {
 		p.trace = append(p.trace, 0)
 		p.addPC(c.NotB(cond))
 		return false
+	}
+	if r1 == solver.Sat && p.sess.live && p.model == nil {
+		i.fetchModel() // satisfies the path condition and cond: valid on the true side taken below
 	}
 	if p.local && !p.localCond.IsTrue() {
 		r2 = p.sess.check(c.AndB(p.localCond, c.NotB(cond)))
@@ -405,6 +454,11 @@ func (i *interp) decide(cond *term.T, what string) bool {
 }
 
 func (p *pathState) addPC(t *term.T) {
+	if p.model != nil && p.interp != nil {
+		if r := p.interp.evalUnder(p.model, t); r == nil || !r.IsTrue() {
+			p.model = nil // the kept assignment does not (provably) satisfy the new constraint
+		}
+	}
 	if p.local {
 		p.localCond = p.ctx.AndB(p.localCond, t)
 		return
